@@ -12,7 +12,7 @@ from .c04 import designation_family
 
 LEVEL = 'other'
 EXPLANATION = (
-    'Static analysis (table agreement, complete finite enumeration). The partner pattern of every closure rule is obtained by folding its _find_closing_node over mock literal nodes (same world / other world / no world); for each logic and each subset of the literal constraints on one atom ({p,~p} x {designated,undesignated}; {p,~p} in the classical family) "closed by Rules.closure" is compared with "no value of the logic satisfies the subset" under the extracted Negation table and designated set; the value BaseModel._read_node/set_literal_value assigns for each open subset is folded from source and checked to exist in the logic, be consistent across the subset\'s nodes and satisfy every literal. Classical identity/existence closures and model completion are checked structurally. (R0) the closure engine hooks and (R5) Branch.find/has/search with Branch.Index.add/select/copy and Node.__getitem__/meets are folded over branches larger than the index cut-off and their copies: find returns a matching node iff a scan finds one. R1 computes the partner tables for atoms, predications and opaque compounds (type Operated like their negations); the tables must coincide. (R6) every node of a branch is announced to the closure rules: the add_branch / after_node_add folds of C16.R2, imported.')
+    'Static analysis (table agreement, complete finite enumeration). The partner pattern of every closure rule is obtained by folding its _find_closing_node over mock literal nodes (same world / other world / no world); for each logic and each subset of the literal constraints on one atom ({p,~p} x {designated,undesignated}; {p,~p} in the classical family) "closed by Rules.closure" is compared with "no value of the logic satisfies the subset" under the extracted Negation table and designated set; the value BaseModel._read_node/set_literal_value assigns for each open subset is folded from source and checked to exist in the logic, be consistent across the subset\'s nodes and satisfy every literal. Classical identity/existence closures and model completion are checked structurally. (R0) the closure engine hooks and (R5) Branch.find/has/search with Branch.Index.add/select/copy and Node.__getitem__/meets are folded over branches larger than the index cut-off and their copies: find returns a matching node iff a scan finds one. R1 computes the partner tables for atoms, predications and opaque compounds (type Operated like their negations); the tables must coincide. (R6) every node of a branch is announced to the closure rules: the add_branch / after_node_add folds of C16.R2, imported. (R7) a closure rule that has a target is applied whatever the search options: Rule.target and the group application folded for every value of is_group_optim / is_rank_optim (C03.R6).')
 TRUSTED = ['CPython ast', 'sa.minieval subset interpreter', 'sa.model MRO resolver', 'Branch.find/has modelled by Node.meets (checked structurally)']
 ASSUMPTIONS = ['BranchTarget helper calls the hook for every node as it arrives (event plumbing not analysed)']
 
